@@ -24,6 +24,10 @@
 //   ms how                           move onto itself under another spelling (0 Directory::move(P, dir+"/"), 1 dir+"/./name", 2 dir+"/sub/../name",
 //                                    3 File::move(dir+"//name"), 4 File::move(dir+"/"), 5 relative source / absolute destination): returns true and
 //                                    the file is untouched; 6 move onto an existing different file, 7 into a directory holding another file of that name
+//   cs how                           copy onto itself under another spelling: 0 Directory::copy(P, dir+"/"), 1 copy(P, dir) (dir + name is P), 2 dir+"/./name",
+//                                    3 dir+"/c17_sub/../name", 4 File(P).copy(dir), 5 File(P).copy(dir+"//name"), 6 relative source / absolute destination,
+//                                    7 copy(P, link to P), 8 copy(link to P, P): whatever the call returns, the file keeps its bytes; 9 copy onto an
+//                                    existing different file (ordinary overwrite: returns true, destination == source)
 //   cp / mv bit3                     the destination directory (bit1) is given as a symbolic link to it
 //   so how mode n1 seed1 kind q fl n2 seed2   one File (how 0) / TextFile (how 1) object for writing AND reading: open(mode), write n1 bytes,
 //                                    [flush()], info query q on the OPEN object (0 none, 1 size, 2 lastModified, 3 isFile, 4 isDirectory,
@@ -588,6 +592,68 @@ static void run_history(const vf::Case& c)
 			}
 			continue;
 		}
+		else if (o.name == "cs") {
+			if (!h.exists)
+				continue;
+			int how = (int)(((o.i(0) % 10) + 10) % 10);
+			std::string d = ref::tmpdir();
+			if (how == 9) {
+				std::string to = d + "/c17_other.dat";
+				VF_CHECK(ref::spit(to, content(77, (uint64_t)o.i(0) + 9, 2)), "harness: cannot write ", to);
+				ctx += " copy onto an existing different file";
+				VF_CHECK(Directory::copy(path, AS(to)), ctx, ": returned false");
+				verify(to, h.model, ctx.c_str(), false);
+				std::string c1 = ctx + ": the source afterwards";
+				verify(P(), h.model, c1.c_str(), false);
+				unlink(to.c_str());
+				continue;
+			}
+			std::string from = P(), to, link = d + "/c17_link.dat";
+			bool viaFile = false;
+			if (how == 0)
+				to = d + "/";
+			else if (how == 1)
+				to = d;
+			else if (how == 2)
+				to = d + "/./c17_main.dat";
+			else if (how == 3) {
+				mkdir((d + "/c17_sub").c_str(), 0755);
+				to = d + "/c17_sub/../c17_main.dat";
+			}
+			else if (how == 4) {
+				to = d;
+				viaFile = true;
+			}
+			else if (how == 5) {
+				to = d + "//c17_main.dat";
+				viaFile = true;
+			}
+			else if (how == 6) {
+				char cwd[4096];
+				std::string c = getcwd(cwd, sizeof cwd) ? std::string(cwd) + "/" : std::string();
+				to = d + "/c17_main.dat";
+				if (!c.empty() && d.compare(0, c.size(), c) == 0)
+					from = d.substr(c.size()) + "/c17_main.dat";
+				else
+					to = d + "/./c17_main.dat";
+			}
+			else {
+				if (symlink("c17_main.dat", link.c_str()) != 0)
+					VF_CHECK(errno == EEXIST, "harness: symlink failed, errno ", errno);
+				if (how == 7)
+					to = link;
+				else {
+					from = link;
+					to = P();
+				}
+			}
+			// the return value is not judged (refusing, or succeeding as a no-op, both keep the content)
+			bool ok = viaFile ? File(AS(from)).copy(AS(to)) : Directory::copy(AS(from), AS(to));
+			ctx += vf::str(viaFile ? " File(\"" : " Directory::copy(\"", from, viaFile ? "\").copy(\"" : "\", \"", to, "\") = ", ok ? "true" : "false", ": the destination is the source file itself", how >= 7 ? " (through a symbolic link)" : " under another spelling");
+			VF_CHECK(ref::exists(P()), ctx, ": the file is gone");
+			verify(P(), h.model, ctx.c_str(), false);
+			continue;
+		}
 		else if (o.name == "ms") {
 			if (!h.exists)
 				continue;
@@ -1017,9 +1083,13 @@ static Gen<vf::Op> histop()
 			o.name = "sl";
 			o.a = {*gen::elementOf(std::vector<int>{0, 0, 1, 2, 3, 4}), *sizegen(false), seed, *vf::irange<int>(0, 3)};
 		}
-		else if (w < 82) {
+		else if (w < 81) {
 			o.name = "ms";
 			o.a = {*vf::irange<int>(0, 7)};
+		}
+		else if (w < 83) {
+			o.name = "cs";
+			o.a = {*vf::irange<int>(0, 9)};
 		}
 		else if (w < 90) {
 			// one object for writing, querying and reading
@@ -1243,6 +1313,14 @@ static void classify_hist(const vf::Case& c)
 			if (size >= 0 && size != 12)
 				nt = true; // (12 = length of the link's own target string)
 			exists = true;
+		}
+		else if (o.name == "cs") {
+			if (exists) {
+				int how = (int)(o.i(0) % 10);
+				st.cls(how == 9 ? "hist.copy_onto_existing_other_file" : how >= 7 ? "hist.copy_onto_itself_through_symlink" : (how == 1 || how == 4 || how == 0) ? "hist.copy_onto_itself_directory_form" : "hist.copy_onto_itself_other_spelling");
+				if (how != 9 && size != 0)
+					nt = true;
+			}
 		}
 		else if (o.name == "ms") {
 			if (exists)
